@@ -22,6 +22,8 @@ func init() {
 }
 
 const (
+	dK      = 8
+	dL      = 7
 	dQ      = 8380417
 	dGamma1 = 1 << 19
 	dGamma2 = (dQ - 1) / 32
@@ -787,5 +789,60 @@ func genC13(g *gen) {
 		if t < 10 {
 			g.op("dl.unpacksig %s", hx(s[:]))
 		}
+	}
+	// ---- key serialisation: sk = rho ‖ key ‖ tr ‖ s1 ‖ s2 ‖ t0, pk = rho ‖ t1 ----
+	g.note("secret / public key layout: unpack(pack(x)) = x on in-range vectors, pack(unpack(key)) = key on real keys")
+	rnd := func(lo, hi int32) (p [256]int32) {
+		for i := range p {
+			p[i] = lo + int32(g.rng.Int63n(int64(hi-lo)+1))
+		}
+		return
+	}
+	for t := 0; t < 40; t++ {
+		var rho, tr, key [32]byte
+		copy(rho[:], g.bytes(32))
+		copy(tr[:], g.bytes(32))
+		copy(key[:], g.bytes(32))
+		var t0, s2, t1 [dK][256]int32
+		var s1 [dL][256]int32
+		for i := 0; i < dK; i++ {
+			t0[i], s2[i], t1[i] = rnd(-(1<<12)+1, 1<<12), rnd(-2, 2), rnd(0, 1023)
+			if t == 0 { // extremes in every row, so that a row that is not decoded (zeros) cannot pass
+				t0[i], s2[i], t1[i] = rnd(1<<12, 1<<12), rnd(-2, -2), rnd(1023, 1023)
+			}
+		}
+		for i := 0; i < dL; i++ {
+			s1[i] = rnd(-2, 2)
+			if t == 0 {
+				s1[i] = rnd(2, 2)
+			}
+		}
+		sk := dilithium.VerifPackSk(rho, tr, key, &t0, &s1, &s2)
+		r2, tr2, k2, t02, s12, s22 := dilithium.VerifUnpackSk(&sk)
+		g.check(r2 == rho && tr2 == tr && k2 == key && t02 == t0 && s12 == s1 && s22 == s2, "unpack-pack:sk",
+			"unpackSk(packSk(rho, tr, key, t0, s1, s2)) does not return the same components (rows compared: all K of t0 and s2, all L of s1)", "dl.unpacksk "+hx(sk[:]))
+		pk := dilithium.VerifPackPk(rho, &t1)
+		r3, t12 := dilithium.VerifUnpackPk(&pk)
+		g.check(r3 == rho && t12 == t1, "unpack-pack:pk", "unpackPk(packPk(rho, t1)) does not return the same components", "dl.unpackpk "+hx(pk[:]))
+	}
+	for t := 0; t < 6; t++ {
+		var seed [48]byte
+		copy(seed[:], g.bytes(48))
+		d, _ := dilithium.NewDilithiumFromSeed(seed)
+		sk, pk := d.GetSK(), d.GetPK()
+		rho, tr, key, t0, s1, s2 := dilithium.VerifUnpackSk(&sk)
+		g.check(dilithium.VerifPackSk(rho, tr, key, &t0, &s1, &s2) == sk, "pack-unpack:sk", "packSk(unpackSk(sk)) != sk for a generated key", "dl.new k "+hx(seed[:]))
+		r3, t1 := dilithium.VerifUnpackPk(&pk)
+		g.check(dilithium.VerifPackPk(r3, &t1) == pk, "pack-unpack:pk", "packPk(unpackPk(pk)) != pk for a generated key", "dl.new k "+hx(seed[:]))
+		// the secret vectors are never all-zero rows (probability 5^-256 each): a row left undecoded shows here
+		zero := [256]int32{}
+		bad := false
+		for i := 0; i < dK; i++ {
+			bad = bad || s2[i] == zero || t0[i] == zero
+		}
+		for i := 0; i < dL; i++ {
+			bad = bad || s1[i] == zero
+		}
+		g.check(!bad, "unpack:sk-rows", "unpackSk leaves a row of s1 / s2 / t0 all zero for a generated key", "dl.new k "+hx(seed[:]))
 	}
 }
